@@ -67,6 +67,7 @@ type world struct {
 	byVal      map[string]*holder   // lock value -> holder (once known)
 	unclean    map[string]string    // lock name -> why exclusion / order are not asserted any more
 	killEpoch  map[int]int          // locker -> number of connection kills so far
+	when       map[int64]time.Time  // seq -> virtual time
 	nextHolder int
 	trace      []string
 	stats      map[string]int64
@@ -111,6 +112,11 @@ func (w *world) markUnclean(name, why string) {
 
 // onEvent runs under the server lock, synchronously with the execution of every command.
 func (w *world) onEvent(e fakeredis.Event) {
+	if e.Kind == "exec" || e.Kind == "push" || e.Kind == "expire" || e.Kind == "close" || e.Kind == "accept" {
+		w.mu.Lock()
+		w.when[e.Seq] = time.Now()
+		w.mu.Unlock()
+	}
 	switch e.Kind {
 	case "expire":
 		if len(e.Argv) == 1 {
@@ -285,7 +291,7 @@ func history(run *mon.Run, name string, p params) (string, bool) {
 	defer srv.Close()
 	node := srv.Node(addr)
 	w := &world{run: run, srv: srv, name: name, cfg: p.cfg(), connOf: map[int64]int{}, keys: map[string]keyState{}, holders: map[int]*holder{}, byVal: map[string]*holder{},
-		unclean: map[string]string{}, killEpoch: map[int]int{}, stats: map[string]int64{}, majority: int(p.majority), total: int(p.majority)*2 - 1}
+		unclean: map[string]string{}, killEpoch: map[int]int{}, when: map[int64]time.Time{}, stats: map[string]int64{}, majority: int(p.majority), total: int(p.majority)*2 - 1}
 	srv.OnEvent = w.onEvent
 
 	validity, interval := 4*time.Second, time.Second
@@ -396,6 +402,10 @@ func history(run *mon.Run, name string, p params) (string, bool) {
 		for c, lk := range w.connOf {
 			conn[c] = lk
 		}
+		when := map[int64]time.Time{}
+		for k, v := range w.when {
+			when[k] = v
+		}
 		w.mu.Unlock()
 		for _, e := range srv.Log() {
 			if e.Kind == "recv" || e.Kind == "reply" || e.Kind == "script" || (len(e.Argv) > 0 && (e.Argv[0] == "PING" || e.Argv[0] == "HELLO" || e.Argv[0] == "CLIENT" || strings.HasPrefix(e.Argv[0], "EVAL") || e.Argv[0] == "PEXPIREAT")) {
@@ -404,7 +414,7 @@ func history(run *mon.Run, name string, p params) (string, bool) {
 			if lk, ok := conn[e.Conn]; (!ok || lk != l) && !(len(e.Argv) > 0 && (e.Argv[0] == "DEL" || e.Argv[0] == "SET") && e.Reply.T != '$') {
 				continue
 			}
-			lg = append(lg, fmt.Sprintf("%d L%d c%d %s %v %s %s", e.Seq, conn[e.Conn], e.Conn, e.Kind, e.Argv, e.Note, drv.Tail(e.Reply.String(), 80)))
+			lg = append(lg, fmt.Sprintf("%s %d L%d c%d %s %v %s %s", when[e.Seq].Format("04:05.000"), e.Seq, conn[e.Conn], e.Conn, e.Kind, e.Argv, e.Note, drv.Tail(e.Reply.String(), 80)))
 		}
 		if len(lg) > 600 {
 			lg = lg[len(lg)-600:]
